@@ -3,57 +3,9 @@
    the type of a computed value) every node has a computed value for every property:
    no nil dereference, no failed type assertion, no infinite recursion.  Exact instance
    of the arithmetic; model of the code after the fixes (fixed = true). *)
-From Verif Require Import Css.Defaulting Css.DefaultingSpec Css.DefaultingProofs Css.DefaultingTables Css.DefaultingEquations.
+From Verif Require Import Css.Defaulting Css.DefaultingSpec Css.DefaultingTyping Css.DefaultingProofs Css.DefaultingTables Css.DefaultingEquations.
 From Coq Require Import Lia ZifyBool ZifyNat ZifyN Qabs.
 Open Scope N_scope.
-
-(* ------------------------------------------------------------------ typing hypotheses *)
-
-(* is p the `*-style` property that borderWidth reads as `name - 1`? *)
-Definition is_style_prop (p : N) : bool :=
-  match computer_of (N.succ p) with KBorderWidth => true | _ => false end.
-
-(* the Go type some computation asserts on a COMPUTED value of property p *)
-Definition shape_ok (p : N) (v : value) : bool :=
-  if p =? PFontSize then match v with VDim _ q _ => Qle_bool 0 q | _ => false end
-  else if p =? PFontWeight then match v with VIntStr _ _ => true | _ => false end
-  else if is_style_prop p then match v with VStr _ => true | _ => false end
-  else if p =? PMarks then match v with VMarks _ _ => true | _ => false end
-  else if p =? PPage then match v with VStr _ => true | _ => false end
-  else if p =? PTextDecorationLine then match v with VDecor _ => true | _ => false end
-  else if p =? PAnchor then match v with VStr _ => true | _ => false end
-  else true.
-
-(* the Go type the computer function of property p asserts on a SPECIFIED value
-   (what the validators of css/validation produce); font sizes are not negative *)
-Definition wt_in (p : N) (v : value) : bool :=
-  match computer_of p with
-  | KNone | KOther => true
-  | KFontSize => match v with VDim _ q _ => Qle_bool 0 q | VInfPx => true | _ => false end
-  | KFontWeight => match v with VIntStr _ _ => true | _ => false end
-  | KDisplay => match v with VDisplay _ _ _ => true | _ => false end
-  | KFloat | KBreak => match v with VStr _ => true | _ => false end
-  | KPoint _ => match v with VPoint _ _ _ _ => true | _ => false end
-  | _ => match v with VDim _ _ _ | VInfPx => true | _ => false end
-  end.
-
-(* a declared value, with the recorded result of its computer function when the model
-   does not cover it *)
-Definition wt_decl (nd : node) (p : N) (v : value) : bool :=
-  wt_in p v &&
-  match computer_of p with
-  | KNone => shape_ok p v
-  | k => if modelled k v then true
-         else shape_ok p (match lookup_oracle nd p with Some r => r | None => v end)
-  end.
-
-Definition wt_node (nd : node) : bool :=
-  forallb (fun d => match d with
-                    | D p (CExplicit v) | D p (CPending (PVal v)) => (1 <=? p) && (p <? nb_properties) && wt_decl nd p v
-                    | D p _ => true
-                    end) (n_decls nd).
-
-Definition wt_tree (t : tree) : bool := wf_tree t && forallb wt_node t.
 
 (* table facts *)
 Lemma initial_shape : forall p, valid_prop p ->
@@ -82,6 +34,11 @@ Proof.
   apply andb_prop in H. destruct H as [H1 H2]. split; [exact H1|].
   destruct (computer_of p); exact H2.
 Qed.
+
+Lemma weight_mem i : existsb (Z.eqb i) css_weights = true -> In i css_weights.
+Proof. intros H. apply existsb_exists in H. destruct H as (x & Hx & E). apply Z.eqb_eq in E. now subst. Qed.
+Lemma mem_weight i : In i css_weights -> existsb (Z.eqb i) css_weights = true.
+Proof. intros H. apply existsb_exists. exists i. split; [exact H|apply Z.eqb_refl]. Qed.
 
 Lemma preset_shape : forallb (fun p => shape_ok p dim_zero_null) anon_presets = true.
 Proof. vm_compute. reflexivity. Qed.
@@ -182,7 +139,7 @@ Section ComputersTotal.
 
   Variable p : N.
   Hypothesis Hpfs : isr = false -> oknn (env (DParent PFontSize)).
-  Hypothesis Hpfw : isr = false -> exists s i, env (DParent PFontWeight) = Ok (VIntStr s i).
+  Hypothesis Hpfw : isr = false -> exists s i, env (DParent PFontWeight) = Ok (VIntStr s i) /\ In i css_weights.
   Hypothesis Hrfs : oknn (env DRootFs).
   Hypothesis Hpos : exists v, env DSpecPos = Ok v.
   Hypothesis Hflo : exists v, env DSpecFloat = Ok v.
@@ -342,17 +299,21 @@ Section ComputersTotal.
       { assert (Hv : valid_prop p) by (apply computer_valid; congruence).
         pose proof (forall_props (fun p => match computer_of p with KFontWeight => p =? PFontWeight | _ => true end)
                       ltac:(vm_compute; reflexivity) p Hv) as H. cbv beta in H. rewrite Ek in H. lia. }
-      assert (Hfw : exists w, run_pure env (parent_fw true isr) = Ok w).
-      { unfold parent_fw. destruct isr eqn:Er; cbn [andb]; [eexists; reflexivity|].
-        destruct (Hpfw eq_refl) as (s1 & i1 & E). cbn. rewrite E. eexists. reflexivity. }
-      destruct Hfw as (w & Ew).
+      assert (Hfw : exists w, run_pure env (parent_fw true isr) = Ok w /\ In w css_weights).
+      { unfold parent_fw. destruct isr eqn:Er; cbn [andb]; [eexists; split; [reflexivity|vm_compute; tauto]|].
+        destruct (Hpfw eq_refl) as (s1 & i1 & E & Hi). cbn. rewrite E. eexists. split; [reflexivity|exact Hi]. }
+      destruct Hfw as (w & Ew & Hw).
       destruct v as [| | |s i| | | | | | |]; try discriminate. unfold font_weight.
-      assert (Sh : forall i', shape_ok p (VIntStr "" i') = true) by (intros; rewrite Hp; reflexivity).
-      destruct (s ==s "normal"); [eexists; split; [reflexivity|apply Sh]|].
-      destruct (s ==s "bold"); [eexists; split; [reflexivity|apply Sh]|].
-      destruct (s ==s "bolder"); [rewrite (run_pure_bind _ _ w Ew); eexists; split; [reflexivity|apply Sh]|].
-      destruct (s ==s "lighter"); [rewrite (run_pure_bind _ _ w Ew); eexists; split; [reflexivity|apply Sh]|].
+      assert (Sh : forall i', In i' css_weights -> shape_ok p (VIntStr "" i') = true).
+      { intros i' Hi'. rewrite Hp. unfold shape_ok. replace (PFontWeight =? PFontSize) with false by reflexivity.
+        rewrite N.eqb_refl. apply mem_weight, Hi'. }
+      destruct (font_weight_tables w Hw) as [Hb Hl]. destruct (font_weight_tables_closed w Hw) as [Cb Cl].
+      destruct (s ==s "normal") eqn:E1; [eexists; split; [reflexivity|apply Sh; vm_compute; tauto]|].
+      destruct (s ==s "bold") eqn:E2; [eexists; split; [reflexivity|apply Sh; vm_compute; tauto]|].
+      destruct (s ==s "bolder") eqn:E3; [rewrite (run_pure_bind _ _ w Ew); eexists; split; [reflexivity|apply Sh; rewrite Hb; exact Cb]|].
+      destruct (s ==s "lighter") eqn:E4; [rewrite (run_pure_bind _ _ w Ew); eexists; split; [reflexivity|apply Sh; rewrite Hl; exact Cl]|].
       eexists; split; [reflexivity|apply Sh].
+      unfold mem_S in Hin. cbn [existsb] in Hin. rewrite E1, E2, E3, E4 in Hin. cbn [orb] in Hin. apply weight_mem, Hin.
     - (* KLineHeight *)
       destruct (modelled KLineHeight v) eqn:Em; [|destruct (lookup_oracle nd p); eexists; (split; [reflexivity|exact Hsh])].
       destruct (Hown Hnb) as (Hfs & _ & _).
@@ -414,8 +375,11 @@ Proof.
   unfold shape_ok. rewrite N.eqb_refl. destruct v; try discriminate. intros H.
   do 3 eexists. split; [reflexivity|apply Qle_bool_true, H].
 Qed.
-Lemma shape_fw v : shape_ok PFontWeight v = true -> exists s i, v = VIntStr s i.
-Proof. vm_compute. destruct v; try discriminate. eauto. Qed.
+Lemma shape_fw v : shape_ok PFontWeight v = true -> exists s i, v = VIntStr s i /\ In i css_weights.
+Proof.
+  unfold shape_ok. replace (PFontWeight =? PFontSize) with false by reflexivity. rewrite N.eqb_refl.
+  destruct v; try discriminate. intros H. do 2 eexists. split; [reflexivity|apply weight_mem, H].
+Qed.
 Lemma shape_marks v : shape_ok PMarks v = true -> exists a b, v = VMarks a b.
 Proof. vm_compute. destruct v; try discriminate. eauto. Qed.
 Lemma shape_page v : shape_ok PPage v = true -> exists s, v = VStr s.
@@ -530,7 +494,7 @@ Section Total.
         destruct (parent_total PFontSize (proj1 special_props_valid) Hr) as (v' & Ev & Sv). rewrite Ev. apply shape_fs, Sv.
       - intros Hr. unfold ctx_env. cbn [pure_env]. rewrite Hr.
         destruct (parent_total PFontWeight (proj1 (proj2 special_props_valid)) Hr) as (v' & Ev & Sv). rewrite Ev.
-        destruct (shape_fw _ Sv) as (s & i & ->). eauto.
+        destruct (shape_fw _ Sv) as (s & i & -> & Hi). eauto.
       - apply rootfs_ok.
       - unfold ctx_env. cbn [pure_env]. apply spec_ok. apply special_props_valid.
       - unfold ctx_env. cbn [pure_env]. apply spec_ok. apply special_props_valid.
